@@ -567,7 +567,10 @@ class Circuit(Unitary, StateVectorMap, Collection[Operation]):
         perm_point_or_none = lambda p: perm_point(p) if p is not None else p
 
         self._graph_info = {
-            (perm[e[0]], perm[e[1]]): i
+            (
+                min(perm[e[0]], perm[e[1]]),
+                max(perm[e[0]], perm[e[1]]),
+            ): i
             for e, i in self._graph_info.items()
         }
         self._front = {
